@@ -132,6 +132,10 @@ func castBool(v string) (interface{}, error) {
 }
 
 func castInt(v string, t reflect.Type) (interface{}, error) {
+	switch t.Kind() {
+	case reflect.Uint, reflect.Uint8, reflect.Uint16, reflect.Uint32, reflect.Uint64:
+		return castUint(v, t)
+	}
 	intV, err := strconv.ParseInt(v, 0, t.Bits())
 	if err != nil {
 		return nil, fmt.Errorf("'%s' cast to %s failed: %w", v, t, ErrCantCastVariableToTargetType)
@@ -148,16 +152,29 @@ func castInt(v string, t reflect.Type) (interface{}, error) {
 		return int32(intV), nil
 	case reflect.Int64:
 		return int64(intV), nil
+	}
+
+	return nil, ErrUnsupportedKind
+}
+
+// castUint parses unsigned targets with the range of the unsigned type: a negative value is an error, not a wrap-around.
+func castUint(v string, t reflect.Type) (interface{}, error) {
+	uintV, err := strconv.ParseUint(v, 0, t.Bits())
+	if err != nil {
+		return nil, fmt.Errorf("'%s' cast to %s failed: %w", v, t, ErrCantCastVariableToTargetType)
+	}
+
+	switch t.Kind() {
 	case reflect.Uint:
-		return uint(intV), nil
+		return uint(uintV), nil
 	case reflect.Uint8:
-		return uint8(intV), nil
+		return uint8(uintV), nil
 	case reflect.Uint16:
-		return uint16(intV), nil
+		return uint16(uintV), nil
 	case reflect.Uint32:
-		return uint32(intV), nil
+		return uint32(uintV), nil
 	case reflect.Uint64:
-		return uint64(intV), nil
+		return uintV, nil
 	}
 
 	return nil, ErrUnsupportedKind
